@@ -340,8 +340,28 @@ class GenBackend:
         return self.g.store(obj)
 
     def visible_temporaries(self, obj):
-        ok = {"t", "dt", "next_phase", "_numpy", "_functions", "phase_transition_table"}
-        return sorted(k for k in obj.__dict__ if k not in ok and not k.startswith("global_"))
+        """instance attributes that neither hold a persistent variable nor exist on a stepper of the same class
+        that has only ever completed steps (whatever book-keeping attributes the generator chooses to use)"""
+        if self.allowed_attrs is None:
+            ok = {a[len("self."):] for a in self.g.global_map.values()}
+            for inp in INPUTS[:2]:
+                st = self.new(new_sites())
+                ok |= set(st.__dict__)
+                st.set_up(t_start=inp["t"], dt_start=inp["dt"],
+                          context={k: copy.deepcopy(v) for k, v in inp["state"].items()})
+                ok |= set(st.__dict__)
+                try:
+                    n = 0
+                    for ev in st.run(max_steps=4):
+                        if type(ev).__name__ in ("StepCompleted", "StepFailed"):
+                            ok |= set(st.__dict__)
+                            n += 1
+                            if n >= 6:       # steps that always fail never reach max_steps
+                                break
+                except Exception:
+                    pass
+            self.allowed_attrs = ok
+        return sorted(k for k in obj.__dict__ if k not in self.allowed_attrs)
 
     def clone_state_into(self, src, dst):
         for k, v in src.__dict__.items():
